@@ -14,6 +14,7 @@ RULES = {
     "lin_h": {"title": "lin_h", "name": "lin_h", "logsource": {"category": "c", "product": "linux"}, "fields": ["h", "User"], "detection": {"s": {"h": "x", "q|fieldref": "h"}, "condition": "s"}},
     "broken": {"title": "broken", "name": "broken", "logsource": {"category": "e"}, "detection": {"selection": {"a": 1}, "condition": "selection and not filter"}},
     "fixed": {"title": "fixed", "name": "fixed", "logsource": {"category": "e"}, "detection": {"selection": {"a": 1}, "filter": {"b": 2}, "condition": ["selection and not filter", "selection"]}},
+    "badcased": {"title": "badcased", "name": "badcased", "logsource": {"category": "c", "product": "linux"}, "detection": {"s": {"User|expand|cased": "/home/%unknown%/*", "k": "v"}, "condition": "s"}},
     "strict": {"title": "strict", "name": "strict", "logsource": {"category": "m"}, "detection": {"s": {"fieldA": "probe"}, "condition": "s"}},
     "sel": {"title": "sel", "name": "sel", "logsource": {"category": "c", "product": "windows"}, "detection": {"sel_a": {"f": "1"}, "sel_b": {"f|exists": False}, "condition": "1 of sel_* and not sel_b"}},
 }
@@ -28,6 +29,9 @@ PIPELINE = {"name": "p", "priority": 10, "vars": {"admins": ["root", "admin"]}, 
     {"id": "rawsfx", "type": "field_name_suffix", "suffix": "_raw", "detection_item_conditions": [{"type": "processing_item_applied", "processing_item_id": "winmap"}], "detection_item_cond_not": True},
     {"id": "px", "type": "field_name_prefix", "prefix": "p."},
     {"id": "rs", "type": "replace_string", "regex": "^a$", "replacement": "aa"},
+    # state written INSIDE a nested pipeline, read by a later item of the enclosing one
+    {"id": "nestst", "type": "nest", "items": [{"id": "inner_st", "type": "set_state", "key": "nidx", "val": "nwin", "rule_conditions": [{"type": "logsource", "product": "windows"}]}]},
+    {"id": "sfxn", "type": "field_name_suffix", "suffix": "_n", "rule_conditions": [{"type": "processing_state", "key": "nidx", "val": "nwin"}]},
     {"id": "fail", "type": "rule_failure", "message": "unsupported", "rule_conditions": [{"type": "logsource", "category": "zzz"}]},
     # reads the field-mapping tracking of the pipeline it belongs to: fieldA is mapped by the backend's own (class-level) pipeline
     {"id": "strictmap", "type": "strict_field_mapping_failure", "rule_conditions": [{"type": "logsource", "category": "m"}]}],
@@ -99,9 +103,11 @@ class C15Bounded(Bounded):
         for bname in backends():
             for with_filter in (False, True):
                 alone = {n: tuple(refs[(bname, with_filter, n)]) for n in names}
-                perms = list(itertools.permutations(names))
-                rnd.shuffle(perms)
-                perms = perms[: (8 if tier == "quick" else 60)]
+                perms = []          # random orders (the number of all orders grows with the factorial of the number of rules)
+                while len(perms) < (8 if tier == "quick" else 60):
+                    pm = tuple(rnd.sample(names, len(names)))
+                    if pm not in perms:
+                        perms.append(pm)
                 B = backends()[bname]
                 b = B(ProcessingPipeline.from_dict(copy.deepcopy(PIPELINE)), collect_errors=True)      # ONE object for all orders (and a second instance of the class in between)
                 for perm in perms:
